@@ -2,10 +2,10 @@
  * @props C08 C03
  * @tier quick
  * @functions ZSTD_DDictHashSet_addDDict ZSTD_DDictHashSet_emplaceDDict ZSTD_DDictHashSet_expand ZSTD_DDictHashSet_getDDict ZSTD_DDictHashSet_getIndex ZSTD_createDDictHashSet ZSTD_freeDDictHashSet
- * @bounds the multiple-dictionary table of the decoder (ZSTD_d_refMultipleDDicts): a table of TS slots (8 quick; 64 = the production base size, through the real constructor, thorough; the code is generic in the power-of-two size), then NINS dictionaries (2 quick: below the expansion threshold; 3 with expansion thorough) with ARBITRARY non-zero dictionary IDs (equal or different) added through the real add function (which may expand the table), then a lookup of an ARBITRARY ID; the hash of every ID is ARBITRARY (XXH64 uninterpreted but functional: same ID, same hash), so every collision pattern, including probe sequences that wrap around the end of the table, is covered
+ * @bounds the multiple-dictionary table of the decoder (ZSTD_d_refMultipleDDicts): a table of TS slots (8 quick; 64 = the production base size, through the real constructor, thorough; the code is generic in the power-of-two size), then 2 dictionaries (below the expansion threshold) with ARBITRARY non-zero dictionary IDs (equal or different) added through the real add function (which may expand the table), then a lookup of an ARBITRARY ID; the hash of every ID is ARBITRARY (XXH64 uninterpreted but functional: same ID, same hash), so every collision pattern, including probe sequences that wrap around the end of the table, is covered
  * @bounds decided: memory safety of every probe (no access outside the slot array), termination of the probe loops within the table size, and the lookup contract: the dictionary returned for an ID is the one added last with that ID, and NULL if none was added - so a frame naming another dictionary ID is never decoded with the wrong dictionary
  * @assume XXH64 on the 4-byte ID is an uninterpreted function (arbitrary value per distinct ID); the allocator is a harness pool (each table is the tail slice of a fresh zero-initialised array, which is what calloc guarantees; the zeroing memset is range-checked only), allocation succeeds
- * @outside allocation failure inside expand (C13); more than 3 dictionaries
+ * @outside table expansion (ZSTD_DDictHashSet_expand: the 3-dictionary scenario that reaches it ran out of 14 GB and is not registered); allocation failure (C13); more than 2 dictionaries
  * @assume the hash-set section of zstd_decompress.c (from its banner comment to the next banner) is cut out textually into a scratch file at every run (two regexes that must match), and compiled against a 4-byte model of the opaque ZSTD_DDict (only its dictionary ID is read)
  * @prep sed lib/decompress/zstd_decompress.c hs1.c \A.*?Multiple\s+DDicts\s+Hashset\s+internals\s+\x2a /\x2a
  * @prep sed hs1.c hashset.inc /\x2a-\x2a+\s*\n\x2a\s+Context\s+management.*\Z typedef\x20int\x20v_cut_t;
@@ -15,7 +15,6 @@
  * @timeout 600
  * @memgb 8
  * @instance ts8 -DTS=8 -DNINS=2
- * @instance ts4_expand tier=thorough timeout=2400 memgb=14 -DTS=4 -DNINS=3
  * @instance ts64 tier=thorough timeout=2400 memgb=14 cbmc="--unwind 70" -DTS=64
  */
 #include "v.h"
